@@ -138,7 +138,8 @@ _p('C01', ['K', 'E6', 'J2', 'A10', 'A1', 'A11'],
             "for each of the four classes",
             "a negative repeat count raises ValueError (guard agreement among __mul__/__imul__; __rmul__ delegates)",
             "the content of len/iter/bool/indexing/slicing/+/* depends only on the operands' bits: these operations "
-            "reach no read of the stream position or file name, and temporaries they mutate own fresh stores"],
+            "reach no read of the stream position or file name, and temporaries they mutate own fresh stores",
+            "non-in-place operations of the mutable classes return new objects (never self or an operand); installed stores are never shared with a mutable object"],
    declined=["agreement of every index/slice/step/concatenation/repetition result with the string model, and IndexError "
              "for out-of-range indices: run-time index arithmetic inside bitarray and offset_slice_indices_lsb0"],
    explanation="Class-provenance typing of every return of the operator/slicing methods per concrete class; sibling guard "
@@ -155,7 +156,8 @@ _p('C06', ['C', 'POSW', 'B1', 'POST', 'RB', 'NOMOVE', 'E7', 'D2', 'J1', 'J2', 'O
             "translation chain)",
             "documented position after append/+=/prepend/clear/deletion/assignment/replace/insert/overwrite/find and "
             "for new stream objects (kind of the assigned value per method)",
-            "pos never affects ==, hash or any non-stream result (content operations reach no _pos read)"],
+            "pos never affects ==, hash or any non-stream result (content operations reach no _pos read)",
+            "operations that are not documented to move pos never run, on self, a stream-level function that assigns self._pos; a _pos assignment never lands on a local that may be the receiver itself; negative dtype lengths cannot move pos backwards"],
    declined=["that the value returned by a read is the interpretation of exactly the consumed bits; pos arithmetic for "
              "oversized lengths inside _read_dtype_list (run-time)"],
    explanation="Typestate and path rules over bitstream.py: classification of all _pos writes by the form of the assigned "
@@ -167,7 +169,8 @@ _p('C07', ['E1', 'E2', 'E3', 'E11', 'OPT'],
    decided=["an empty pattern raises ValueError in find, rfind, findall, split, replace (and `in`/readto by delegation)",
             "an invalid [start, end) raises: every public function with start/end validates them through _validate_slice "
             "(or forwards them unchanged to one that does) before any other use",
-            "bytealigned=None defaults from options.bytealigned before reaching any store-level search"],
+            "bytealigned=None defaults from options.bytealigned before reaching any store-level search",
+            "replace's count limits the non-overlapping matches it selects itself (never handed to findall); no return precedes the validation of start/end; Optional parameters are defaulted with `is None`"],
    declined=["agreement of the fast byte path, general path and chunked reverse path with the brute-force definition; "
              "overlap and ordering of results (run-time search arithmetic)"],
    explanation="Sibling guard agreement over the search entry points; forward-or-validate dataflow of start/end; taint of "
@@ -192,7 +195,8 @@ _p('C10', ['D2', 'E9', 'J1', 'OPTDEP', 'A1'],
             "extra bits is not accepted as a single value: exception translation chain decoder -> getter -> reader, "
             "index reads inside try/except IndexError, slice reads behind a remaining-bits test, length check",
             "position unchanged on failure: decoders take and return pos as a value (no _pos access outside bitstream.py)",
-            "the codes refuse lsb0 mode consistently (setters and base decoders)"],
+            "the codes refuse lsb0 mode consistently (setters and base decoders)",
+            "the interpretations read no module option except the lsb0 refusal; the remaining-bits test of each decoder equals (as a linear form) the end of the slice it protects; cached encoders never hand a shared store to a mutable object"],
    declined=["exact codewords for every integer, decode(encode(i)) == i, prefix-freeness (arithmetic on unbounded integers)"],
    explanation="Exception-translation and guard-dominance checks over the four setters, four getters, the decoders and the "
                "reader closures of DtypeDefinition.")
@@ -202,7 +206,8 @@ _p('C13', ['HASH', 'J1', 'J2', 'D3', 'L', 'G3', 'EQ1', 'A7'],
             "__hash__ = None); ordering operators return NotImplemented",
             "== / != / hash have one implementation each for all classes and reach no read of _pos or _filename, so they "
             "are independent of stream position and construction route; logical length honoured",
-            "comparison with a non-promotable type is False, not an error; != is the negation of =="],
+            "comparison with a non-promotable type is False, not an error; != is the negation of ==",
+            "== is decided on the stores (never on a zero-padded serialisation without the length); raw buffer reads are confined to BitStore; foreign bitarrays are re-built big-endian; whole-value operations incl. __hash__ are mode independent"],
    declined=["symmetry/transitivity as value-level laws, the 2000-bit sampling threshold arithmetic, equality with "
              "promotable operands (run-time)"],
    explanation="MRO resolution of __hash__/__eq__/__ne__ per class, field-dependence reachability, handler check of the "
@@ -214,7 +219,8 @@ _p('C16', ['A1', 'A5', 'A8', 'A10', 'A11', 'E6', 'K', 'C', 'L', 'G3', 'POSW'],
             "BitStore-level binary operators and _copy build new stores",
             "ValueError for negative shift counts and empty bitstrings, Error for ~ of an empty bitstring (guards present "
             "and agreeing among siblings)",
-            "results are new objects of the operand's class with pos assigned"],
+            "results are new objects of the operand's class with pos assigned",
+            "non-in-place operators of the mutable classes never return the receiver or an operand; shifts and bit-wise operators reach no mode-switched position accessor; operator wrappers never assign _pos on a possible alias of the receiver"],
    declined=["the per-bit boolean function, zero fill, algebraic laws, ValueError for unequal lengths (raised inside "
              "bitarray): run-time / leaf behaviour"],
    explanation="Effect summaries per public operator, provenance of mutated temporaries, sibling guard agreement, "
@@ -226,7 +232,8 @@ _p('C03', ['B2', 'WB', 'N1', 'B1', 'E2', 'E11', 'OPT'],
             "first change of self (operations over an iterable of positions exempt, by the property's wording)",
             "an operation given a [start, end) range never alters bits outside it, in its bounded-write part: loops of "
             "ranged in-place writes are bounded by the validated end",
-            "helpers' position asserts are established by their public callers' guards"],
+            "helpers' position asserts are established by their public callers' guards",
+            "start/end are validated (or forwarded to the validating function) before any return; replace's count is not findall's count"],
    declined=["equality of the resulting sequence with the documented operation, return values, length preservation in "
              "general (run-time)"],
    explanation="Path walk of every effectful public mutator (effects from the store-effect summaries), bound derivation "
@@ -240,7 +247,8 @@ _p('C14', ['I', 'IDX', 'TY1', 'B3', 'B2', 'N2a', 'A9'],
             "a failing in-place operator leaves the Array unchanged; extended-slice assignment, extend, insert, append "
             "validate before they change anything",
             "zero-width items are impossible (the dtype writer rejects them before installing)",
-            "copies and slices of an Array own their data"],
+            "copies and slices of an Array own their data",
+            "every method that turns an item index into a bit offset first normalises a negative index by the item count (sibling agreement), items are never addressed from the end of the buffer; numeric-only calls are not applied to non-numeric element values"],
    declined=["agreement of every list operation and operator result with the Python list model; promotion rules as "
              "values (run-time)"],
    explanation="Dimension (unit) analysis over array_.py, atomicity path rule for in-place helpers, guard check on the "
@@ -252,7 +260,8 @@ _p('C20', ['M', 'D1', 'D5', 'N1', 'N2', 'N2a', 'N3', 'N4', 'N5', 'A5', 'B1', 'PO
             "(all divisions), KeyError (struct-code regexes cover the table lookups), NameError (all globals "
             "resolve), undocumented classes (raise-site census)",
             "immutable objects unchanged; streams keep a valid pos (typestate of _pos writes, override coverage)",
-            "module options are as the caller left them (writes confined to the setters)"],
+            "module options are as the caller left them (writes confined to the setters)",
+            "KeyError: every table lookup by a run-time key is guarded or justified; StopIteration/OverflowError from next()/struct.pack are contained; option asserts never sit in generators; Optional numeric parameters are defaulted with `is None`"],
    declined=["RecursionError, MemoryError, len(s) == len(s.bin) as a run-time invariant, errors raised inside bitarray "
              "with surprising classes"],
    explanation="Member resolution per class, raise/assert/division censuses with dominating-guard facts, symtable name "
@@ -267,7 +276,8 @@ _p('C02', ['H4', 'H2', 'H3', 'LV', 'OPTDEP', 'A7', 'F2'],
             "signed ones; the le forms reach the same encoder/decoder through exactly one byte reversal; byte-wise "
             "getters refuse partial bytes; float be/le differ only in the struct prefix",
             "length tables agree: allowed_lengths of float/bfloat/bool/8-bit floats/endian integers vs the lengths the "
-            "setters and format tables accept; stated length vs built length compared on every route"],
+            "setters and format tables accept; stated length vs built length compared on every route",
+            "interpretations depend on no module option except the documented ones; struct formats used by an integer getter/setter have its signedness, byte order and size; cached token lists are never mutated"],
    declined=["exact canonical encodings and parse(build(v)) == v for all values and lengths: numerical, done inside "
              "bitarray/struct on run-time values"],
    explanation="Role-dispatch census over the creation and reading routes (resolved calls through Dtype.set_fn/get_fn/"
